@@ -38,6 +38,8 @@ type mxWorld struct {
 	focus    string // "" (whole matrix) | "edit" | "apps"
 	// recentUnstake: node key and output key of the node most recently targeted by a begin-unstake
 	recentUnstake [2]int
+	// follow: a case to emit next (the second half of a two-transaction pattern)
+	follow *mxCaseSpec
 }
 
 func newMxWorld(r *rand.Rand) *mxWorld {
@@ -131,6 +133,11 @@ type mxCaseSpec struct {
 
 // genMxCase draws one case specification.
 func (w *mxWorld) genMxCase(r *rand.Rand) mxCaseSpec {
+	if w.follow != nil {
+		s := *w.follow
+		w.follow = nil
+		return s
+	}
 	url := func() string { return fmt.Sprintf("https://m%d.example:443", r.Intn(1000)) }
 	chains := func() []string { return [][]string{{"0001"}, {"0021"}, {"0001", "0021"}}[r.Intn(3)] }
 	pick := r.Intn(13)
@@ -194,13 +201,43 @@ func (w *mxWorld) genMxCase(r *rand.Rand) mxCaseSpec {
 			stake = 61_000_000_000 + r.Int63n(5_000_000_000) // above the weighting ceiling
 		}
 		var dg map[string]uint32
-		if r.Intn(3) == 0 {
+		switch r.Intn(6) {
+		case 0, 1:
 			dg = map[string]uint32{chain.AddrHex(chain.KeyDeleg0 + r.Intn(4)): uint32(1 + r.Intn(40)), chain.AddrHex(chain.KeyDeleg0 + 4 + r.Intn(4)): uint32(1 + r.Intn(40))}
+		case 2, 3:
+			// small pools and few share values: successive edits of one node often carry maps of the same size that differ
+			// only in an address, only in a share, or not at all
+			dg = map[string]uint32{chain.AddrHex(chain.KeyDeleg0 + r.Intn(2)): uint32(10 * (1 + r.Intn(2))), chain.AddrHex(chain.KeyDeleg0 + 4 + r.Intn(2)): uint32(10 * (1 + r.Intn(2)))}
 		}
 		if r.Intn(4) == 0 {
 			out = chain.Addr(chain.KeyOutput0 + 60 + r.Intn(4)) // try to change the output address
 		}
-		msg := chain.MsgNodeStake(chain.Key(t.node), chains(), stake, url(), out, dg)
+		ch, u := chains(), url()
+		msg := chain.MsgNodeStake(chain.Key(t.node), ch, stake, u, out, dg)
+		if t.out >= 0 && len(dg) > 0 && r.Intn(2) == 0 {
+			// two-step pattern: right after this edit, the OUTPUT address submits the same edit (same stake, chains, url)
+			// with a delegator map of the same size in which one address is swapped for another (same or different
+			// share), one share is changed, or nothing is changed
+			dg2 := map[string]uint32{}
+			swapped := false
+			mode := r.Intn(4)
+			for _, k := range sortedKeys(dg) {
+				v := dg[k]
+				switch {
+				case !swapped && mode <= 1:
+					nk := chain.AddrHex(chain.KeyDeleg0 + 8 + r.Intn(2))
+					if mode == 1 {
+						v = uint32(1 + r.Intn(40))
+					}
+					dg2[nk], swapped = v, true
+				case !swapped && mode == 2:
+					dg2[k], swapped = v+1, true
+				default:
+					dg2[k] = v
+				}
+			}
+			w.follow = &mxCaseSpec{"node_edit", chain.MsgNodeStake(chain.Key(t.node), ch, stake, u, out, dg2), t.out, "output", true, true}
+		}
 		if followUp && t.out >= 0 && r.Intn(2) == 0 {
 			return mxCaseSpec{"node_edit", msg, t.out, "output", true, true}
 		}
